@@ -71,8 +71,10 @@ Proof.
   cbn [length repeat map]. rewrite IH. reflexivity.
 Qed.
 
-Lemma bridge_predict_nan hs : gen_predict_nan (zlen hs) = const_all None hs.
-Proof. unfold gen_predict_nan, np_full_nan, const_all. apply repeat_const. Qed.
+(* `_predict_nan(fh)` = np.full(len(fh), np.nan) is inlined into gen_kernel wherever the code calls it
+   (resolved through the base class), or written out by the code itself *)
+Lemma full_nan_const hs : np_full_nan (zlen hs) = const_all None hs.
+Proof. unfold np_full_nan, const_all. apply repeat_const. Qed.
 
 (* Semantic proof: both sides are unfolded down to list / Z operations, every boolean test of
    either side is case-split, and the leaves are closed by computation or by `lia` on the recorded
@@ -91,16 +93,28 @@ Ltac zero_pads :=
              replace z with 0 by lia; cbn [Z.to_nat repeat app]
          end.
 
+(* widths that are equal by linear arithmetic (e.g. `max (sp - len) 0` where len < sp) are unified *)
+Ltac unify_nats :=
+  repeat match goal with
+         | |- context [Z.to_nat ?a] =>
+             match goal with
+             | |- context [Z.to_nat ?b] => assert_fails (constr_eq a b); replace a with b by lia
+             end
+         end.
+Ltac close_leaf :=
+  first [reflexivity | exfalso; lia | zero_pads; reflexivity | unify_nats; reflexivity
+        | zero_pads; unify_nats; reflexivity].
+
 Theorem bridge_kernel s sp w hs : gen_kernel s sp w hs = kernel s sp w hs.
 Proof.
-  unfold gen_kernel, kernel, steps_vals, gen_predict_nan, np_all_isnan, np_any_isnan, np_index,
+  unfold gen_kernel, kernel, steps_vals, np_all_isnan, np_any_isnan, np_index,
     np_tile, np_ceil_div, np_repeat, np_last, np_first, np_hstack, np_full_nan, np_reshape_cols,
     np_nanmean_axis0, const_all, sq_add_arr, sq_scale_idx, sq_divz, sq_sub.
   cbv beta iota zeta. rewrite ?Z.gtb_ltb, ?Z.geb_leb, ?map_indexer, ?repeat_const.
   destruct (all_nan w) eqn:Hnan; destruct (zlen w =? 0) eqn:Hz; cbn [orb andb negb];
     destruct s; cbv beta iota zeta; try reflexivity.
-  - (* last *) split_bools; first [reflexivity | exfalso; lia | zero_pads; reflexivity].
-  - (* mean *) split_bools; cbn [fst snd]; first [reflexivity | exfalso; lia | zero_pads; reflexivity].
+  - (* last *) split_bools; close_leaf.
+  - (* mean *) split_bools; cbn [fst snd]; close_leaf.
   - (* drift *)
     destruct (hd None w) as [a|]; destruct (last w None) as [b|];
       cbn [existsb is_nan orb andb negb]; split_bools; try reflexivity; try (exfalso; lia).
